@@ -191,6 +191,46 @@ fn main() {
         cx.out.finish(); return;
     }
     let thorough = cli.tier == "thorough";
+    // `c07 gen seeds <n>`: list, per shape, the seeds among the first n whose unprotected secret scalars start with a zero
+    // octet (used once to fill LEADING_ZERO_SEEDS below; not part of a check run)
+    if cli.tier == "seeds" {
+        for (si, sh) in shapes_all.iter().enumerate() {
+            if sh.pass.is_some() || matches!(sh.primary, KeyType::Rsa(_) | KeyType::Dsa(_)) { continue; }
+            let mut found = Vec::new();
+            for s in 0..cli.seed.max(1) * 1000 {
+                let seed = 100_000 + s;
+                let mut probe = Ctx { out: Out::new() };
+                let before = 0;
+                let _ = before;
+                // cheap probe: generate and look at the scalars only
+                let mut subs = Vec::new();
+                for (kt, sign, _) in &sh.subs { let mut b = SubkeyParamsBuilder::default(); b.version(sh.ver).key_type(kt.clone()); if *sign { b.can_sign(true); } else { b.can_encrypt(EncryptionCaps::All); } subs.push(b.build().unwrap()); }
+                let mut p = SecretKeyParamsBuilder::default();
+                p.version(sh.ver).key_type(sh.primary.clone()).can_certify(true).can_sign(true).subkeys(subs);
+                if sh.uids >= 1 { p.primary_user_id(format!("primary {seed} <p{seed}@example.org>")); }
+                if sh.uids >= 2 { p.user_ids((1..sh.uids).map(|i| format!("extra {i} <e{i}@example.org>")).collect()); }
+                let Ok(params) = p.build() else { break; };
+                let Ok(key) = params.generate(Rng::new(seed)) else { continue; };
+                let mut kts: Vec<(Vec<u8>, Vec<u8>, PublicKeyAlgorithm, KeyType)> = vec![(key.primary_key.to_bytes().unwrap_or_default(), key.primary_key.public_key().to_bytes().unwrap_or_default(), key.primary_key.algorithm(), sh.primary.clone())];
+                for (sub, spec) in key.secret_subkeys.iter().zip(sh.subs.iter()) { kts.push((sub.key.to_bytes().unwrap_or_default(), sub.key.public_key().to_bytes().unwrap_or_default(), sub.key.algorithm(), spec.0.clone())); }
+                for (body, pubb, alg, kt) in kts {
+                    let Some(n) = scalar_len(alg, &kt) else { continue; };
+                    if body.len() < pubb.len() + 3 { continue; }
+                    let m = &body[pubb.len() + 1..];
+                    let bits = u16::from_be_bytes([m[0], m[1]]) as usize;
+                    if bits.div_ceil(8) < n { found.push(seed); break; }
+                }
+                drop(probe);
+                if found.len() >= 4 { break; }
+            }
+            eprintln!("shape {si}: {found:?}");
+        }
+        return;
+    }
+    // seeds found by that search: keys whose secret scalar (primary or subkey) has a leading zero octet, so that the
+    // 1-in-256 case does not wait for luck in a quick run
+    const LEADING_ZERO_SEEDS: &[(usize, &[u64])] = &[(0, &[100514, 100520, 100544, 101304]), (2, &[100054, 100055, 100121, 100491]), (3, &[100012, 100053, 100153, 100349]), (5, &[100514, 100520]), (10, &[100035, 100152, 100233, 100380])];
+    for (si, seeds) in LEADING_ZERO_SEEDS { for s in *seeds { cx.one(&shapes_all[*si], *s); } }
     for sh in &shapes_all {
         let slow = matches!(sh.primary, KeyType::Rsa(_) | KeyType::Dsa(_));
         let n: u64 = if slow { if thorough { 6 } else { 1 } } else if thorough { 1500 } else { 60 };
